@@ -991,3 +991,10 @@ VARIANTS += [
     dict(prop="C13", name="spare-needed-bound-first", benign=True,
          edits=[dict(file=URF, find="            let needed = sz - remainder;\n            let mut tmp = GenericArray::<u8, M::Size>::default();\n            tmp[..remainder].copy_from_slice(&self.buf[self.offset..]);", replace="            let mut tmp = GenericArray::<u8, M::Size>::default();\n            let tail = &self.buf[self.offset..];\n            tmp[..remainder].copy_from_slice(tail);\n            let needed = sz - remainder;")]),
 ]
+
+VARIANTS += [
+    dict(prop="C06", name="leader-distributes-seeds-swapped", expect="SIDES-seed|leader-sends-(left, right)",
+         edits=[dict(file="ipa-core/src/helpers/cross_shard_prss.rs", find="                async move { sender.send(RecordId::FIRST, (l_seed, r_seed)).await }", replace="                async move { sender.send(RecordId::FIRST, (r_seed, l_seed)).await }")]),
+    dict(prop="C06", name="seed-setup-builds-generators-crossed", expect="SIDES-seed|setup-keeps-sides",
+         edits=[dict(file="ipa-core/src/protocol/prss/seed.rs", find="        let fl = GeneratorFactory::from(self.left);\n        let fr = GeneratorFactory::from(self.right);", replace="        let fl = GeneratorFactory::from(self.right);\n        let fr = GeneratorFactory::from(self.left);")]),
+]
